@@ -33,7 +33,7 @@ Init == /\ dir1 \in {Root, <<"a">>}
         /\ inc1 \in BOOLEAN /\ exc1 \in BOOLEAN
         /\ lint1 \in {None, "c1", "c2", "off"} /\ lint2 \in {None, "c1", "c2", "off"}
         /\ lintTop \in {None, "c1", "c2top"}
-        /\ br1 \in {None, "b1", "off"} /\ brTop \in {None, "b1"}
+        /\ br1 \in {None, "b1", "b2", "off"} /\ brTop \in {None, "b1", "b2top"}
         /\ (dir2 = NoMod => lint2 = None)
 Next == UNCHANGED vars
 Spec == Init /\ [][Next]_vars
@@ -47,6 +47,13 @@ Section(kind, d) ==
     [] kind = "c2"    -> [present |-> TRUE, use |-> {"BASIC"}, ignore |-> {d \o <<"ign">>}, ignoreOnly |-> {}]
     [] kind = "off"   -> [present |-> TRUE, use |-> {}, ignore |-> {d}, ignoreOnly |-> {}]
     [] kind = "b1"    -> [present |-> TRUE, use |-> {"WIRE"}, ignore |-> {}, ignoreOnly |-> {}]
+    \* breaking sections with paths: an ignore and an ignore_only entry inside the module (own section) or inside
+    \* the second module (top-level section)
+    [] kind = "b2"    -> [present |-> TRUE, use |-> {"FILE"}, ignore |-> {d \o <<"ign">>},
+                          ignoreOnly |-> {<<"FIELD_NO_DELETE", d \o <<"legacy">>>>}]
+    [] kind = "b2top" -> [present |-> TRUE, use |-> {"FILE"},
+                          ignore |-> {(IF dir2 = NoMod THEN <<"b">> ELSE dir2) \o <<"ign2">>},
+                          ignoreOnly |-> {<<"FIELD_NO_DELETE", (IF dir2 = NoMod THEN <<"b">> ELSE dir2) \o <<"legacy">>>>}]
     \* a top-level section whose paths point into the second module (or nowhere when there is none)
     [] kind = "c2top" -> [present |-> TRUE, use |-> {"BASIC"},
                           ignore |-> {(IF dir2 = NoMod THEN <<"b">> ELSE dir2) \o <<"ign2">>},
@@ -81,6 +88,9 @@ TopLevelPathsStayInTheirModule ==
 TopLevelReachesLaterModules ==
   (dir2 # NoMod /\ lintTop = "c2top" /\ lint2 = None) => EffectiveLint(2).kind = "enabled" /\ EffectiveLint(2).ignoreOnly # {}
 
+\* the same for breaking: the top-level entries reach the module they lie in, relative to it
+TopLevelBreakingReachesModule2 ==
+  (dir2 # NoMod /\ brTop = "b2top") => EffectiveBreaking(2).kind = "enabled" /\ EffectiveBreaking(2).ignoreOnly = {<<"FIELD_NO_DELETE", <<"legacy">>>>}
 ModRec(m) == [dir |-> DirOf(m), named |-> (m = 1 /\ named1), include |-> (m = 1 /\ inc1), exclude |-> (m = 1 /\ exc1),
               lint |-> EffectiveLint(m), breaking |-> EffectiveBreaking(m)]
 EmitCase == (Emit /\ Accepted) => PrintT(<<"CASE", ToJson(
